@@ -13,9 +13,9 @@ from harness import lex_gen as lg
 
 LEVEL = "proof"
 META = {
-    "technique": "Coq proof at two levels. (1) Token level (on top of the C10 tokenizer model): the preservation criterion fmt_equiv is an equivalence with a verified boolean checker, and a Gallina mirror of format_emb.sanity_check_format_result decides exactly that criterion. (2) Handler level: an executable Gallina model of format_emb.py (Lex/FmtModel.v: strings with provenance, _Row/_Block values, hand-written shared combinators _intersperse/_should_add_blank_lines/_columnize/_indent_*/_add_blank_rows_on_dedent/_render_rows_to_text/comment stripping, and a 28-construct handler DSL); the table production -> handler term is REGENERATED from format_emb.py on every run by a fail-closed Python ast translator (harness/fmt_x.py); theorems for ALL parse trees by induction over the tree with one lemma per combinator, instantiated on the regenerated table by vm_compute over the production list. Correspondence: model output = format_emboss_parse_tree character for character on every (text, indent 1..8) pair of the run (extracted OCaml, sampled against vm_compute). Never-fails: a refinement typing of handler results (Lex/FmtTyping.v: str / k-list of str / rows with at most one column / blocks with a set of header kinds, possibly non-empty / lists of row lists / inline-bits body), type inference for the DSL, symbol types inferred by iteration inside Coq, table_typed_ok by vm_compute on the regenerated table, soundness by induction over expressions and trees. Second configuration Config(show_line_types=True) modelled (Lex/FmtShow.v) and compared character for character. Re-tokenization piece by piece (Lex/FmtRetok.v) over the C10 tokenizer model, hypothesis pieces_fit evaluated by the extracted model on sampled outputs and the pieces compared with tokenizer.tokenize. Translation validation of every produced output as before: output tokenized by the MODEL and compared with the verified criterion; idempotence, no-exception, re-parse and agreement of the built-in self check observed directly",
-    "level_text": "PARTIAL (proof of the criterion and of the self-check mirror + translation validation of each produced output). Machine-checked (Coq 8.16, no axioms): fmt_equiv (same symbols and same texts modulo surrounding white space after collapsing newline runs, leading ones entirely) is reflexive, symmetric and transitive; fmt_equivb decides it; equivalent token lists feed the parser the same symbol sequence; the model of sanity_check_format_result (as of fix 7fc177c) returns no error exactly when fmt_equiv holds (sanity_ok_iff), and its two reports mean what they say (sanity_bug_position: first non-equivalent position; sanity_count_differs: one stream equivalent to a strict prefix of the other); a line re-tokenises to a given token list iff the local longest-first conditions hold (retokenize_line_partial). Handler level, for ALL parse trees (no size bound): format_preserves_tokens / format_text_preserves_tokens / format_preserves_leaves -- whenever the formatter does not raise, its result (rows, and the rendered text as a concatenation of pieces) carries exactly the (symbol, stripped text) sequence of the tree's leaves other than Indent/Dedent/newline and white-space-only tokens, given the static check table_toks_ok, which holds for the regenerated table (inst_table_toks_ok); eval_preserves_tokens per DSL construct and combinator. NEVER FAILS: format_total / format_text_total -- for every tree built from the grammar's productions with terminal leaves (tree_gwf) that satisfies asserts_ok (the child under `assert not comment` of doc-line is the empty alternative: a tokenizer fact, Documentation tokens end their line; checked on every parse tree and token list of the run) the formatter returns a value, a text for a module, at every indent width; by the static check table_typed_ok (inst_table_typed_ok on the regenerated table); each Python assert is a typing fact except that one. PARTIAL: idempotence -- columnize_idempotent (cells already at the computed widths are left alone), columnize_cells_idempotent, columnize_widths_depend_on_text_only, format_rows_fixed_point_partial (the rendered rows are a fixed point of both whole-file passes and of their composition), the single passes and rstrip; fmt(fmt t) = fmt t itself needs the parser and stays validated per output. RE-TOKENIZATION, PARTIAL: format_line_retokenizes_partial / format_lines_retokenize_partial -- under the decidable per-line condition pieces_fit the line loop of the tokenizer model splits every rendered line into exactly the tokens its pieces stand for, and these are the tree's tokens; pieces_fit is evaluated per produced line (sample), not derived for all outputs; Indent/Dedent/newline tokens not covered. show_line_types_preserves_tokens for the second configuration.",
-    "level_note": "Trusted: Coq kernel + vm_compute; extraction (ExtrOcamlBasic only) + 40-line OCaml driver, cross-checked on a sample inside Coq; harness/lex_tables.py; the Python parser (parser.parse_module) as the oracle for 'parseable'. harness/fmt_x.py (translator format_emb.py -> handler DSL; its output is tied by the character-for-character correspondence). Not proved: idempotence of the whole formatter (needs the parser), pieces_fit for all outputs, Indent/Dedent re-tokenization; asserts_ok is a hypothesis of format_total justified by the tokenizer's Documentation patterns and checked on every tree of each run, not derived from the tokenizer model; IR equality after formatting follows from token equivalence only through the parser, which is the subject of C08/C09, not of this check.",
+    "technique": "Coq proof at two levels. (1) Token level (on top of the C10 tokenizer model): the preservation criterion fmt_equiv is an equivalence with a verified boolean checker, and a Gallina mirror of format_emb.sanity_check_format_result decides exactly that criterion. (2) Handler level: an executable Gallina model of format_emb.py (Lex/FmtModel.v: strings with provenance, _Row/_Block values, hand-written shared combinators _intersperse/_should_add_blank_lines/_columnize/_indent_*/_add_blank_rows_on_dedent/_render_rows_to_text/comment stripping, and a 28-construct handler DSL); the table production -> handler term is REGENERATED from format_emb.py on every run by a fail-closed Python ast translator (harness/fmt_x.py); theorems for ALL parse trees by induction over the tree with one lemma per combinator, instantiated on the regenerated table by vm_compute over the production list. Correspondence: model output = format_emboss_parse_tree character for character on every (text, indent 1..8) pair of the run (extracted OCaml, sampled against vm_compute). Never-fails: a refinement typing of handler results (Lex/FmtTyping.v: str / k-list of str / rows with at most one column / blocks with a set of header kinds, possibly non-empty / lists of row lists / inline-bits body), type inference for the DSL, symbol types inferred by iteration inside Coq, table_typed_ok by vm_compute on the regenerated table, soundness by induction over expressions and trees. asserts_ok DERIVED (Lex/FmtAsserts.v): a syntactic check ends_line on regexes (ends in `$` or `.*`) with soundness against the C10 matcher, sym_ends_line on the regenerated pattern table, induction over the line loop / tok_lines of the C10 tokenizer model, a static check asserts_guarded on the regenerated handler table (symbol in front of the asserted position ends with Documentation, asserted symbol is empty-or-starts-with-a-terminal-other-than-newline) and an induction over grammar trees; both checks by vm_compute (FmtAInstance_C11). Second configuration Config(show_line_types=True) modelled (Lex/FmtShow.v) and compared character for character. Re-tokenization piece by piece (Lex/FmtRetok.v) over the C10 tokenizer model, hypothesis pieces_fit evaluated by the extracted model on sampled outputs and the pieces compared with tokenizer.tokenize. Translation validation of every produced output as before: output tokenized by the MODEL and compared with the verified criterion; idempotence, no-exception, re-parse and agreement of the built-in self check observed directly",
+    "level_text": "PARTIAL (proof of the criterion and of the self-check mirror + translation validation of each produced output). Machine-checked (Coq 8.16, no axioms): fmt_equiv (same symbols and same texts modulo surrounding white space after collapsing newline runs, leading ones entirely) is reflexive, symmetric and transitive; fmt_equivb decides it; equivalent token lists feed the parser the same symbol sequence; the model of sanity_check_format_result (as of fix 7fc177c) returns no error exactly when fmt_equiv holds (sanity_ok_iff), and its two reports mean what they say (sanity_bug_position: first non-equivalent position; sanity_count_differs: one stream equivalent to a strict prefix of the other); a line re-tokenises to a given token list iff the local longest-first conditions hold (retokenize_line_partial). Handler level, for ALL parse trees (no size bound): format_preserves_tokens / format_text_preserves_tokens / format_preserves_leaves -- whenever the formatter does not raise, its result (rows, and the rendered text as a concatenation of pieces) carries exactly the (symbol, stripped text) sequence of the tree's leaves other than Indent/Dedent/newline and white-space-only tokens, given the static check table_toks_ok, which holds for the regenerated table (inst_table_toks_ok); eval_preserves_tokens per DSL construct and combinator. NEVER FAILS: format_total / format_text_total -- for every tree built from the grammar's productions with terminal leaves (tree_gwf) that satisfies asserts_ok (the child under `assert not comment` of doc-line is the empty alternative) the formatter returns a value, a text for a module, at every indent width; asserts_ok is now DERIVED: tokenize_doc_then_newline (for ALL texts, every Documentation token of the tokenizer model's output is immediately followed by the newline token: every pattern yielding Documentation passes ends_line, inst_doc_ends_line), asserts_ok_from_token_fact (all grammar trees, given the static check asserts_guarded, inst_asserts_guarded), asserts_ok_derived, format_total_tokenized / format_text_total_tokenized (inst_format_text_total_tokenized: every tree of the grammar whose leaves are the tokens of some text is formatted at every indent width; remaining hypothesis = the parser's contract, evaluated per tree: tree_gwfb and leaves = tokens); by the static check table_typed_ok (inst_table_typed_ok on the regenerated table); each Python assert is a typing fact except that one. PARTIAL: idempotence -- columnize_idempotent (cells already at the computed widths are left alone), columnize_cells_idempotent, columnize_widths_depend_on_text_only, format_rows_fixed_point_partial (the rendered rows are a fixed point of both whole-file passes and of their composition), the single passes and rstrip; for ALL blocks and rows (no padding hypothesis) the row/column layer is a function of (row name, cell TEXTS, indent): rstrip_is_textual, columnize_line_depends_on_cell_texts, columnize_rows_depend_on_cell_texts, reformat_same_cell_texts_same_text_partial (rows with equal names, cell texts and indents render to the same text after both whole-file passes); fmt(fmt t) = fmt t itself needs the premise that the second run rebuilds the same cell texts (parser + handlers on normalised token texts) and stays validated per output. RE-TOKENIZATION, PARTIAL: format_line_retokenizes_partial / format_lines_retokenize_partial -- under the decidable per-line condition pieces_fit the line loop of the tokenizer model splits every rendered line into exactly the tokens its pieces stand for, and these are the tree's tokens; pieces_fit is evaluated per produced line (sample), not derived for all outputs; Indent/Dedent/newline tokens not covered. show_line_types_preserves_tokens for the second configuration.",
+    "level_note": "Trusted: Coq kernel + vm_compute; extraction (ExtrOcamlBasic only) + 40-line OCaml driver, cross-checked on a sample inside Coq; harness/lex_tables.py; the Python parser (parser.parse_module) as the oracle for 'parseable'. harness/fmt_x.py (translator format_emb.py -> handler DSL; its output is tied by the character-for-character correspondence). Not proved: idempotence of the whole formatter (needs the parser), pieces_fit for all outputs, Indent/Dedent re-tokenization; asserts_ok is derived from the tokenizer model and the grammar shape (tree_gwf + leaves = tokens remain hypotheses: the parser's contract, C08/C09; evaluated on every parse tree of each run); IR equality after formatting follows from token equivalence only through the parser, which is the subject of C08/C09, not of this check.",
 }
 
 GEN_TABLE = "LexTable_C11"
@@ -788,6 +788,10 @@ def handler_model_part(ctx, impl, cases):
     if doc_bad is not None:
         ctx.violation("formatter-total-hypothesis", "tokenizer.tokenize produced %s right after a Documentation token in %r" % (doc_bad[1], doc_bad[0][:160]),
                       dict(kind="text", text=doc_bad[0], theorems=["format_total"]), found_input=False)
+    # ---- asserts_ok derived from the tokenizer model (Lex/FmtAsserts.v) ----
+    t_ad = time.time()
+    asserts_derived_part(ctx, impl, tab, trees)
+    ctx.extra["seconds_asserts_derived_part"] = round(time.time() - t_ad, 1)
     # ---- the second configuration: Config(indent_width=k, show_line_types=True) ----
     spairs, sexp = [], []
     show_texts = list(trees.items())
@@ -971,6 +975,158 @@ Qed.
 """
 
 
+INST_A = "FmtAInstance_C11"
+
+INSTANCE_A_V = """(* GENERATED by harness/props/c11.py: the tree hypothesis asserts_ok of format_total DERIVED on the regenerated tables
+   (pattern table of tokenizer.py, handler table of format_emb.py) *)
+From Coq Require Import NArith List.
+Import ListNotations.
+Require Import EmbossV.Lex.Regex EmbossV.Lex.Tokenizer EmbossV.Lex.Spec EmbossV.Lex.FmtModel EmbossV.Lex.FmtTyping.
+Require Import EmbossV.Lex.FmtAsserts EmbossV.Lex.Properties_C11.
+Require Import EmbossVGen.%(lex)s EmbossVGen.%(tab)s EmbossVGen.%(insth)s.
+
+Definition doc_sym : str := %(doc)s%%N.
+
+(* every pattern of tokenizer.py that yields Documentation consumes the rest of its line *)
+Theorem inst_doc_ends_line : sym_ends_line code_table doc_sym = true /\\ reserved doc_sym = false.
+Proof. split; vm_compute; reflexivity. Qed.
+
+(* every assert of a handler is `assert not arg_i` behind a symbol that ends with Documentation, on a symbol that is empty
+   or starts with a terminal other than the newline *)
+Theorem inst_asserts_guarded : asserts_guarded fmt_table doc_sym newline_sym = true.
+Proof. vm_compute. reflexivity. Qed.
+
+(* ALL texts: a Documentation token is immediately followed by the newline token (never by a Comment) *)
+Theorem inst_tokenize_doc_then_newline : forall s ts, tokenize code_table s = Toks ts ->
+  followed_strict doc_sym newline_sym (map sym ts) = true.
+Proof. exact (fun s ts => tokenize_doc_then_newline code_table doc_sym s ts (proj1 inst_doc_ends_line) (proj2 inst_doc_ends_line)). Qed.
+
+(* ALL parse trees over tokenizer output: `assert not comment` cannot fire *)
+Theorem inst_asserts_ok_derived : forall s ts t, tokenize code_table s = Toks ts ->
+  tree_gwf fmt_table t -> tree_syms t = map sym ts -> asserts_ok fmt_table t = true.
+Proof.
+  exact (fun s ts t => asserts_ok_derived code_table fmt_table doc_sym s ts t
+           (proj1 inst_doc_ends_line) (proj2 inst_doc_ends_line) inst_asserts_guarded).
+Qed.
+
+(* format_emboss_parse_tree NEVER FAILS on a parse tree of a module, for every text and every indent width; the only
+   hypothesis left is the parser's contract: t is a tree of the grammar whose leaves are the tokens *)
+Theorem inst_format_text_total_tokenized : forall iw s ts t, tokenize code_table s = Toks ts ->
+  tree_gwf fmt_table t -> tree_syms t = map sym ts -> root_sym fmt_table t = Some %(module)s%%N ->
+  exists txt, format_text fmt_ws iw fmt_table t = Some txt.
+Proof.
+  exact (fun iw s ts t Ht Hw Hy Hr =>
+           format_text_total_tokenized fmt_ws iw code_table fmt_table doc_sym inst_table_typed_ok inst_asserts_guarded
+             (proj1 inst_doc_ends_line) (proj2 inst_doc_ends_line) s ts t _ Ht Hw Hy Hr inst_module_is_str).
+Qed.
+"""
+
+INSTANCE_A_MOD_V = """
+(* a real module: its parse tree (real parser) is a tree of the grammar whose leaves are the MODEL's tokens of its text,
+   so the derived theorem applies to it (the hypotheses are satisfiable on the real tables) *)
+Definition real_text : str := %(text)s%%N.
+Definition real_tree : tree := %(tree)s%%N.
+Theorem inst_real_tree_is_parse_tree :
+  tree_gwfb fmt_table real_tree = true /\\ exists ts, tokenize code_table real_text = Toks ts /\\ tree_syms real_tree = map sym ts.
+Proof. split; [vm_compute; reflexivity|]. eexists. split; vm_compute; reflexivity. Qed.
+Theorem inst_real_tree_total : forall iw, exists txt, format_text fmt_ws iw fmt_table real_tree = Some txt.
+Proof.
+  intro iw. destruct inst_real_tree_is_parse_tree as [Hw [ts [Ht Hy]]].
+  apply (inst_format_text_total_tokenized iw real_text ts real_tree Ht (tree_gwfb_sound fmt_table real_tree Hw) Hy).
+  vm_compute. reflexivity.
+Qed.
+"""
+
+
+def tree_leaves(tree):
+    """the Token leaves of a parse tree, left to right (iterative)"""
+    from compiler.util import parser_types
+    out, stack = [], [tree]
+    while stack:
+        n = stack.pop()
+        if isinstance(n, parser_types.Token):
+            out.append(n)
+        else:
+            stack.extend(reversed(n.children))
+    return out
+
+
+DOC_COMMENT_PROBES = [
+    "-- module doc # not a comment\n",
+    "-- module doc  #\n# real comment\n",
+    "struct Foo:\n  -- doc # c\n  0 [+1]  UInt  x\n",
+    "struct Foo:\n  -- # c\n  --  # d\n  0 [+1]  UInt  x\n",
+    "struct Foo:\n  0 [+1]  UInt  x\n    -- field doc #c\n",
+    "struct Foo:\n  0 [+1]  UInt  x  -- inline doc # c\n",
+    "enum Bar:\n  -- doc #c\n  AA = 1  -- v # c\n    -- value doc # c\n",
+    "bits Baz:\n  -- doc\t# c\n  0 [+1]  Flag  f\n",
+    "external Ext:\n  -- doc # c\n  [requires: true]\n",
+    "struct Foo:\n  0 [+4]  bits:\n    -- doc # c\n    0 [+1]  Flag  f\n",
+    "struct Foo:\n  --\n  -- # c\n  --\n  0 [+1]  UInt  x\n",
+]
+
+
+def asserts_derived_part(ctx, impl, tab, trees):
+    """The derivation of asserts_ok: instance theorems on the regenerated pattern + handler tables, and the remaining
+    hypothesis (the leaves of a parse tree are the tokens) on every parse tree of the run."""
+    inst = os.path.join(fw.GEN, INST_A + ".v")
+    with open(inst, "w") as f:
+        f.write(INSTANCE_A_V % dict(lex=GEN_TABLE, tab=GEN_FMT, insth=INST_H, doc=lt.coq_str("Documentation"), module=lt.coq_str("module")))
+        mod_text = "-- m  # x\nstruct Foo:\n  -- doc # c\n  0 [+1]  UInt  x  -- d #c\n  # comment\n"
+        mod_tree = impl.parse(mod_text)
+        if mod_tree is not None:
+            f.write(INSTANCE_A_MOD_V % dict(text=lt.coq_str(mod_text), tree=coq_tree(tab, mod_tree)))
+    rc, out = fw.coqc(inst, timeout=900)
+    names = fw.theorem_names(inst)
+    if rc != 0:
+        for n_ in names:
+            ctx.obligation("instance theorem " + n_, False)
+        # SEARCH: a text on which the real formatter's assert fires
+        found = None
+        for text in DOC_COMMENT_PROBES + list(trees):
+            tree = trees.get(text) or impl.parse(text)
+            if tree is None:
+                continue
+            for k in (2, 3):
+                why = property_failure(impl, text, k)
+                if why is not None and "raised" in why:
+                    found = (text, k, why)
+                    break
+            if found:
+                break
+        if found:
+            ctx.violation("formatter:assert-reachable", "the derivation of asserts_ok fails on the regenerated tables and the formatter's assert is reachable: "
+                          "indent %d on %r: %s" % (found[1], found[0][:160], found[2]),
+                          dict(kind="text", text=found[0], indent=found[1], failure=found[2], theorems=["asserts_ok_derived", "format_total_tokenized"],
+                               log=out[-2000:]), found_input=True)
+        else:
+            ctx.violation("proof-broken:" + INST_A, "the derivation of asserts_ok (Documentation patterns end their line: sym_ends_line; asserts guarded: "
+                          "asserts_guarded) does not check on the regenerated tables; no input found on which the formatter raises",
+                          dict(kind="proof", file=inst, log=out[-3000:], theorems=names), found_input=False)
+    else:
+        res = fw.collect_assumptions(ctx, "EmbossVGen." + INST_A, inst, names)
+        for n_ in names:
+            axs = (res or {}).get(n_, ["<unavailable>"])
+            ctx.obligation("instance theorem " + n_, not axs, axs)
+        prob = fw.audit_file(inst)
+        if prob:
+            ctx.violation("audit", "forbidden vernacular in generated files", dict(kind="audit", problems=prob), found_input=False)
+    # the hypothesis that is left: the leaves of the parse tree are exactly the tokens of the text
+    bad = None
+    for text, tree in trees.items():
+        toks, errs = impl.tokenizer.tokenize(text, "f")
+        lv = tree_leaves(tree)
+        same = (not errs) and [(x.symbol, x.text) for x in lv] == [(x.symbol, x.text) for x in toks]
+        ctx.count("parse-tree-leaves:" + ("equal to the token list" if same else "DIFFER from the token list"))
+        if not same and bad is None:
+            bad = text
+    ctx.obligation("hypothesis of format_total_tokenized: the leaves of each of the %d distinct parse trees of this run are exactly the tokens of "
+                   "tokenizer.tokenize(text), in order (symbol and text)" % len(trees), bad is None)
+    if bad is not None:
+        ctx.violation("formatter-total-hypothesis", "the leaves of the parse tree differ from the token list for %r" % bad[:160],
+                      dict(kind="text", text=bad, theorems=["format_total_tokenized"]), found_input=False)
+
+
 def audit_closure(ctx):
     """Audit (forbidden vernacular) of the .v files this check depends on: theories/Lex and theories/Lib.
     (fw.Ctx.audit covers the whole tree, including other properties' work in progress.)"""
@@ -1004,10 +1160,10 @@ def run(ctx):
                 "Non-trivial = the formatted text differs from the input; distinct by (text, indent)")
     ctx.trusted = ["Coq 8.16.1 kernel, vm_compute", "extraction (ExtrOcamlBasic) + OCaml driver (sampled against vm_compute)",
                    "harness/lex_tables.py", "harness/fmt_x.py", "harness/props/c11.py", "parser.parse_module as the oracle for 'parseable'"]
-    ctx.assumptions = ["the handler-level model (Lex/FmtModel.v + regenerated table) stands for format_emb.py: tied by the character-for-character correspondence of this run; format_total assumes tree_gwf (grammar shape, terminal leaves) and asserts_ok (no Comment after Documentation on a line: tokenizer fact), both evaluated on every parse tree of the run; format_preserves_tokens speaks about the pieces of the rendered text, whose re-tokenization is proved per line under pieces_fit (evaluated on a sample) and otherwise validated per produced output (partial)",
+    ctx.assumptions = ["the handler-level model (Lex/FmtModel.v + regenerated table) stands for format_emb.py: tied by the character-for-character correspondence of this run; format_total_tokenized assumes tree_gwf (grammar shape, terminal leaves) and that the leaves are the tokens of the text (the parser's contract), both evaluated on every parse tree of the run; asserts_ok is derived (and still evaluated); format_preserves_tokens speaks about the pieces of the rendered text, whose re-tokenization is proved per line under pieces_fit (evaluated on a sample) and otherwise validated per produced output (partial)",
                        "the C10 tokenizer model stands for tokenizer.tokenize (tied by the C10 correspondence; re-checked here on every text used)"]
     audit_closure(ctx)
-    thm_ok = ctx.check_theorems("EmbossV.Lex.Properties_C11", "Lex/Properties_C11.v", expect_min=34)
+    thm_ok = ctx.check_theorems("EmbossV.Lex.Properties_C11", "Lex/Properties_C11.v", expect_min=45)
 
     os.makedirs(fw.GEN, exist_ok=True)
     try:
@@ -1083,6 +1239,8 @@ def run(ctx):
     if not getattr(ctx, "replay_path", None):
         for shape, text in lg.FmtGen.sweep():
             texts.append((shape, text))
+        for text in DOC_COMMENT_PROBES:
+            texts.append(("sweep-doc-comment", text))
         fg = lg.FmtGen(ctx.rng)
         for _ in range(2500 if ctx.thorough() else 420):
             texts.append(("generated-module", fg.module()))
